@@ -72,9 +72,11 @@ def update_expected(targets, repo="/repo"):
         with open(expected_path(t), "w") as f:
             f.write("# functions that gossa/ssagen translates (target %s) on the reference tree; written by\n"
                     "# `python3 -m vlib.gentie --update-expected %s`, never at check time (see vlib/gentie.py)\n" % (t, t))
-            for n in info["translated"]:
+            # a translated function without a tie theorem (written to the _untied file) has nothing to lose
+            names = [n for n in (info["translated"] or []) if n not in (info.get("untied") or [])]
+            for n in names:
                 f.write(n + "\n")
-        print("%s: %d functions expected" % (expected_path(t), len(info["translated"])))
+        print("%s: %d functions expected" % (expected_path(t), len(names)))
 
 
 def _guards(path):
@@ -119,12 +121,26 @@ def _failed_names(path, errs):
     return names
 
 
-def run(ctx, target, generated, module, key, namespace, limit_quick=180, limit_thorough=900, deps=()):
+def run(ctx, target, generated, module, key, namespace, limit_quick=180, limit_thorough=900, deps=(), advisory=False):
     """target: ssagen target; generated: file name under lean/Generated; module: e.g. "Props.C03Gen"; key: prefix of the
     evidence entries; namespace: namespace of the theorems in the module; deps: generated files of OTHER targets that the
     module imports, as (target, file name, lock file name) — they are regenerated from the same working tree first, each
     under the lock of the check that owns it (lock order: this tie's lock, then the locks of deps in the given order, then
     core's lean.lock; the owning checks take only their own lock and lean.lock, so the order is acyclic)."""
+    if advisory:
+        # the tie is run and recorded (coverage.<key>_advisory, NOTE lines) but decides nothing: a structural tie of a
+        # function with loops also breaks under a behaviour-preserving restructuring of the loops
+        shadow = _Standalone(ctx.repo, ctx.tier)
+        run(shadow, target, generated, module, key, namespace, limit_quick, limit_thorough, deps, advisory=False)
+        bad = [t["name"] for t in shadow.theorems if not t["ok"]]
+        ctx.extra.update(shadow.extra)
+        ctx.extra[key + "_advisory"] = {"theorems": len(shadow.theorems), "not_discharged": bad,
+                                        "problems": [p[:400] for p in shadow.lean_problems]}
+        ctx.rules.extend(shadow.rules)
+        ctx.checker_cmds.extend(shadow.checker_cmds)
+        for pr in shadow.lean_problems:
+            print("NOTE (translator tie %s, advisory): %s" % (target, pr[:400]))
+        return
     out_path = os.path.join(core.LEAN, "Generated", generated)
     props_path = os.path.join(core.LEAN, module.replace(".", "/") + ".lean")
     os.makedirs(os.path.join(core.VERIF, ".work"), exist_ok=True)
@@ -166,7 +182,9 @@ def _run_locked(ctx, target, out_path, props_path, module, key, namespace, limit
         ctx.lean_problems.append("ssagen could not translate the working tree (target %s): %s" % (target, out[-400:]))
         _register_all(ctx, props_path, namespace, guards, set(g.split(".")[-1] for g in guards.values() if g))
         return
-    lean_names = set(info.get("lean", []))
+    for k in ("lean", "translated", "skipped", "partial", "untied"):
+        info[k] = info.get(k) or []          # Go marshals an empty list as null
+    lean_names = set(info["lean"])
     # ---- floor: every function that is translated on the reference tree must still be translated
     expected = read_expected(target)
     if expected is None:
@@ -295,7 +313,7 @@ STANDALONE = {
     "txt": dict(target="txt", generated="SSA_Txt.lean", module="Props.C20Gen", key="txt", namespace="C20Gen"),
     "bitset": dict(target="bitset", generated="SSA_Bitset.lean", module="Props.C08Gen", key="bitset", namespace="C08Gen"),
     "numloops": dict(target="numloops", generated="SSA_NumLoops.lean", module="Props.C01GenLoops", key="numloops",
-                     namespace="C01GenLoops"),
+                     namespace="C01GenLoops", deps=[("num", "SSA_Num.lean", "c01gen.lock")]),
 }
 
 
